@@ -180,6 +180,46 @@ def order_scripts(rng, n):
     return out
 
 
+def hook_scripts(rng, n):
+    """C09: spawn hooks set, replaced (sync and async) and unset, error handlers set (sync and async) and
+    unset, run() and run_async() with futures of several durations, among the process controls."""
+    out = []
+    proc = ["start", "stop", "restart", "try_restart", "restart_with_signal", "try_restart_with_signal",
+            "stop_with_signal", "signal", "to_wait", "start", "restart"]
+    for i in range(n):
+        steps, t = [], 0
+        for j in range(rng.randrange(3, 10)):
+            t += rng.choice([0, 0, 10, 20, 30, 50]) if j else 0
+            r = rng.random()
+            kw = {}
+            if r < 0.45:
+                op = rng.choice(proc)
+            elif r < 0.60:
+                op = rng.choice(["set_hook", "set_hook", "set_async_hook", "unset_hook"])
+                if op != "unset_hook":
+                    kw["tag"] = rng.choice([1, 2, 3])
+            elif r < 0.70:
+                op = rng.choice(["set_error_handler", "set_async_error_handler", "unset_error_handler"])
+                if op != "unset_error_handler":
+                    kw["tag"] = rng.choice([1, 2])
+            elif r < 0.88:
+                op = "run_async"
+                kw["delay"] = rng.choice([0, 0, 10, 25, 40, 100])
+            else:
+                op = "run"
+            st = step(t, op, rng, **kw)
+            if rng.random() < 0.2 and not j == 0:
+                st["settle"] = True
+            steps.append(st)
+        if rng.random() < 0.3:
+            steps.append(step(t + rng.choice([0, 10]), rng.choice(["delete", "delete_now", "drop_handle"]), rng))
+        kids = [rng.choice(KIDS_TIMING + KIDS_FAULT) for _ in range(5)]
+        s = finish("h%05d" % i, steps, kids, "hooks")
+        s["horizon"] += 800
+        out.append(s)
+    return out
+
+
 def ticket_scripts(rng, n):
     """C07: waiters, clones, failures, job endings at any position."""
     out = []
